@@ -169,21 +169,29 @@ Proof.
     unfold dedup_finish in H.
     match type of H with bind ?m _ = _ => destruct m as [refs|] eqn:Hm; simpl in H; [|discriminate] end.
     injection H as <-. simpl. rewrite <- Hsk.
-    assert (Hrefs : refs = rs).
-    { clear Htr ND. revert refs Hm. induction HF as [|s r ls lr Hl _ IH]; simpl; intros refs Hm.
-      - now injection Hm as <-.
+    assert (Hrefs_gen : forall l lr, Forall2 (fun s r => lookupn s done = Some r) l lr ->
+              forall refs0, map_res (fun r => match nth_error (dheap st) r with
+                                              | None => Err "model:dangling"
+                                              | Some nd => match find_node pred st nd with
+                                                           | Some ref => Ok ref
+                                                           | None => Err "AssertionError"
+                                                           end
+                                              end) lr = Ok refs0 -> refs0 = lr).
+    { intros l lr HF0. induction HF0 as [|s r ls lr Hl _ IH]; simpl; intros refs0 Hm0.
+      - now injection Hm0 as <-.
       - apply lookupn_In in Hl. destruct (Ha s r Hl) as (Hrs & _ & nds & ndr & Hns & Hnr & Himg).
-        rewrite Hnr in Hm. destruct (find_node pred st ndr) as [ref|] eqn:Hfind; simpl in Hm; [|discriminate].
-        match type of Hm with bind ?m _ = _ => destruct m as [refs1|] eqn:Hm1; simpl in Hm; [|discriminate] end.
-        injection Hm as <-. apply find_node_some in Hfind. destruct Hfind as (Hreg & ond & Hoth & Hcmp & Hp).
+        rewrite Hnr in Hm0. destruct (find_node pred st ndr) as [ref|] eqn:Hfind; simpl in Hm0; [|discriminate].
+        match type of Hm0 with bind ?m _ = _ => destruct m as [refs1|] eqn:Hm1; simpl in Hm0; [|discriminate] end.
+        injection Hm0 as <-. apply find_node_some in Hfind. destruct Hfind as (Hreg & ond & Hoth & Hcmp & Hp).
         pose proof (match_same done st s nds ndr ref ond HK Hrs Hns Himg Hreg Hoth Hcmp Hp) as Hin.
         rewrite (Hd s r ref Hl Hin). f_equal. now apply IH. }
-    subst refs.
-    assert (NDr : NoDup rs).
-    { clear -HF ND Hc. induction HF as [|s r ls lr Hl _ IH]; [constructor|].
-      inversion ND as [|? ? Hs ND']; subst. constructor; [|now apply IH].
-      intros Hin. destruct (Forall2_ex_l _ _ _ _ _ HF r Hin) as (s' & Hs' & Hl').
+    pose proof (Hrefs_gen _ _ HF refs Hm) as Hrefs. subst refs.
+    assert (NDr_gen : forall l lr, Forall2 (fun s r => lookupn s done = Some r) l lr -> NoDup l -> NoDup lr).
+    { intros l lr HF0. induction HF0 as [|s r ls lr Hl HF1 IH]; intros ND0; [constructor|].
+      inversion ND0 as [|? ? Hs ND']; subst. constructor; [|now apply IH].
+      intros Hin. destruct (Forall2_ex_l _ _ _ _ _ HF1 r Hin) as (s' & Hs' & Hl').
       apply lookupn_In in Hl. apply lookupn_In in Hl'. rewrite (Hc s s' r Hl Hl') in Hs. contradiction. }
+    pose proof (NDr_gen _ _ HF ND) as NDr.
     rewrite (nodup_nat_id rs [] NDr) by (intros x _ []).
     exists done. split; [|split; [|exact Hc]].
     + eapply Forall2_impl_in'; [|exact HF]. intros a b Hl. now apply lookupn_In.
